@@ -384,6 +384,9 @@ def run_cse_trees(ctx, w, S, M):
         ctx.count(f"cse_check:{src}:" + ("ok" if c["check"] else "not-met"))
         if c["used"] > 0:
             ctx.count(f"cse_check:{src}:with-replacements:" + ("ok" if c["check"] else "not-met"))
+        if not c["filter_ok"]:
+            # decidable form of the proved fact `cse_trees_is_cse_step`: must hold for every input whatsoever
+            ctx.tie_broken("model:cse_filter_ok", f"a replacement of the model did not pass the filter for cse({render_forest(rec['roots'])!r}) [{src}]")
         if not c["check"]:
             why = [k for k in ("wf", "used_ok", "pairs_ok") if not c[k]]
             ctx.count(f"cse_check:{src}:not-met:" + "+".join(why))
